@@ -116,13 +116,15 @@ def find_scope(tk, pat, start, end, nth=0):
     hits = 0
     for (a, b, _) in find_all(tk, pat, start, end):
         j = b - 1 if pat and pat[-1] == '{' else b
-        depth = 0
+        depth = sum(1 for t in pat if t == '(') - sum(1 for t in pat if t == ')')      # an anchor may end inside the parameter list
         while j < end:
             t = tk[j]
             if t in ('(', '<'): depth += 1
             elif t in (')', '>'): depth -= 1
             elif t == '>>': depth -= 2
             elif t == ';' and depth <= 0: j = -1; break
+            elif t == '{' and depth > 0 and tk[j - 1] not in (')', 'const', 'noexcept', 'override'):
+                j = match_close(tk, j)          # braces of an expression inside the declarator, e.g. `-> decltype(Functor{}(event))`
             elif t == '{': break
             j += 1
         if j < 0 or j >= end: continue
